@@ -1014,6 +1014,13 @@ func (e *Exec) regionsFor(msg string) (ids []KnownRegion, terms []*T) {
 	return
 }
 
+var (
+	kfAudit     = os.Getenv("GOSYM_KFAUDIT") != ""
+	kfAuditMu   sync.Mutex
+	KFExclusive = map[string]int{}
+	KFHits      = map[string]int{}
+)
+
 // fail decides whether bad (the negated obligation) is satisfiable on this path, outside and
 // inside the known-finding regions. Returns: new violation found, solver verdict unknown.
 func (e *Exec) fail(bad *T, msg string) (violated bool, unknown bool) {
@@ -1048,6 +1055,23 @@ func (e *Exec) fail(bad *T, msg string) (violated bool, unknown bool) {
 			w.Known = regs[i].ID
 			e.KnownHits = append(e.KnownHits, w)
 			violated = true
+			if kfAudit {
+				// is this finding ever the only explanation? (audit of the known-findings file)
+				excl := sym.And(bad, t)
+				for j, u := range terms {
+					if j != i {
+						excl = sym.And(excl, sym.Not(u))
+					}
+				}
+				if e.Solver.Check(e.pc, excl) == sym.Sat {
+					kfAuditMu.Lock()
+					KFExclusive[regs[i].ID]++
+					kfAuditMu.Unlock()
+				}
+				kfAuditMu.Lock()
+				KFHits[regs[i].ID]++
+				kfAuditMu.Unlock()
+			}
 		} else if r == sym.Unknown {
 			unknown = true
 		}
